@@ -33,7 +33,7 @@ func Suspects(g *Gen) (early, lateIn []Input) {
 	// gzip footer whose 16 hex characters carry a sign: negative TOC offset = "external TOC"
 	add("gz-footer-negative-offset", Input{Kind: "blob", Data: append(append([]byte{}, body...), GzipFooter(StargzExtra("-000000000000001"))...)})
 	// hardlink to an ancestor that is not of type dir (but gets children): cyclic tree
-	add("hardlink-to-nondir-ancestor", g.blobInput(gz, "", toc(E("p", "reg"), E("p/x", "hardlink", "linkName", "p"))))
+	add("hardlink-to-nondir-ancestor", markMust(g.blobInput(gz, "", toc(E("p", "reg"), E("p/x", "hardlink", "linkName", "p")))))
 	// sizes: reg entry whose size/chunkSize make initFields allocate Size/ChunkSize+1 slots
 	add("huge-size-small-chunksize", g.blobInput(gz, "", toc(E("f", "reg", "size", num("4611686018427387904"), "chunkSize", 1, "offset", 10))))
 	// huge chunk size reaching b.Grow / bufio.NewReaderSize / make in fs/reader
@@ -59,6 +59,11 @@ func Suspects(g *Gen) (early, lateIn []Input) {
 	addLate("chunk-beyond-file-size", g.blobInput(gz, "", toc(E("d/", "dir"), r4,
 		E("d/a.txt", "chunk", "offset", r4["offset"], "chunkOffset", 4, "chunkSize", 4, "chunkDigest", r4["chunkDigest"]),
 		E("d/a.txt", "chunk", "offset", r4["offset"], "chunkOffset", 20, "chunkSize", 5, "chunkDigest", zeros5))))
+	// single-chunk file whose chunkOffset lies behind its end: the store's ReadAt delivers 0 bytes with
+	// io.EOF, file.ReadAt accepts that and asks for the same chunk again, for ever
+	// (Lean: SV.Props.C04.read_progress_full_fails)
+	addLate("nonadvancing-read", g.blobInput(gz, "", toc(E("d/", "dir"),
+		E("d/w", "reg", "size", 1, "offset", reg()["offset"], "chunkOffset", 50))))
 	// zero-sized chunk at EOF (implicit chunk size = size - chunkOffset = 0): passthrough collection loop
 	r5 := reg()
 	addLate("zero-chunk-at-eof", g.blobInput(gz, "", toc(E("d/", "dir"), r5,
@@ -89,8 +94,8 @@ func Suspects(g *Gen) (early, lateIn []Input) {
 	}
 	addLate("deep-path-10001", g.blobInput(gz, "", toc(E(deepName(10001, "f"), "reg"))))
 	// hardlinks in the db store: cycles and links to directories
-	add("hardlink-cycle", g.blobInput(gz, "", toc(E("a", "hardlink", "linkName", "b"), E("b", "hardlink", "linkName", "a"))))
-	add("hardlink-to-parent-dir", g.blobInput(gz, "", toc(E("d/", "dir"), E("d/x", "hardlink", "linkName", "d"))))
-	add("hardlink-to-root", g.blobInput(gz, "", toc(E("d/", "dir"), E("d/x", "hardlink", "linkName", ""))))
+	add("hardlink-cycle", markMust(g.blobInput(gz, "", toc(E("a", "hardlink", "linkName", "b"), E("b", "hardlink", "linkName", "a")))))
+	add("hardlink-to-parent-dir", markMust(g.blobInput(gz, "", toc(E("d/", "dir"), E("d/x", "hardlink", "linkName", "d")))))
+	add("hardlink-to-root", markMust(g.blobInput(gz, "", toc(E("d/", "dir"), E("d/x", "hardlink", "linkName", "")))))
 	return out, late
 }
